@@ -85,8 +85,14 @@ def match_literal(it, pattern: str, s: VStr, full=False):
     raise OutOfSubset(f"re.match with unmodelled literal pattern {pattern!r}")
 
 
+def _no_flags(args, kw):
+    if len(args) > 2 or kw:
+        raise OutOfSubset("re.match / search / fullmatch with flags (not modelled)")
+
+
 @handler("re.match")
 def _re_match(it, self, args, kw):
+    _no_flags(args, kw)
     pat, s = args[0], args[1]
     if isinstance(pat, VLib) and pat.kind == "Pattern":
         pat = pat.f["pattern"]
@@ -115,6 +121,7 @@ def _user_pattern(it, mode, pat, s):
 
 @handler("re.search")
 def _re_search(it, self, args, kw):
+    _no_flags(args, kw)
     pat, s = args[0], args[1]
     if isinstance(pat, VStr) and isinstance(s, VStr) and (pat.conc is None or s.conc is None):
         return _user_pattern(it, "search", pat, s)
@@ -126,6 +133,7 @@ def _re_search(it, self, args, kw):
 
 @handler("re.fullmatch")
 def _re_fullmatch(it, self, args, kw):
+    _no_flags(args, kw)
     pat, s = args[0], args[1]
     if isinstance(pat, VStr) and pat.conc is not None and s.conc is not None:
         import re
